@@ -124,7 +124,42 @@ async fn resolve_forwarding_notimeout<'a>(
         tracing::trace!("nameserver HIT");
         // Propagate SOA RR for NXDOMAIN / NODATA responses
         let soa_rr = get_nxdomain_nodata_soa(question, &response, 0).cloned();
-        let rrs = response.answers;
+        let mut rrs = response.answers;
+
+        // the upstream nameserver follows aliases on its own, and knows
+        // nothing of our zones and hosts files: where its answer follows an
+        // alias to a name local data speaks for, what it says from there on is
+        // not used, the target is resolved afresh - zones first
+        if let Some((pos, cname)) = alias_into_local_data(context.zones, question.qtype, &rrs) {
+            rrs.truncate(pos + 1);
+            context.cache.insert_all(&rrs);
+            prioritising_merge(&mut combined_rrs, rrs);
+            let cname_question = Question {
+                name: cname,
+                qtype: question.qtype,
+                qclass: question.qclass,
+            };
+            context.push_question(question);
+            let answer = match resolve_forwarding_notimeout(context, &cname_question)
+                .instrument(tracing::error_span!("resolve_forwarding", %cname_question))
+                .await
+            {
+                Ok(resolved) => {
+                    let soa_rr = resolved.soa_rr().cloned();
+                    combined_rrs.append(&mut resolved.rrs());
+                    Ok(ResolvedRecord::NonAuthoritative {
+                        rrs: combined_rrs,
+                        soa_rr,
+                    })
+                }
+                Err(_) => Err(ResolutionError::DeadEnd {
+                    question: cname_question,
+                }),
+            };
+            context.pop_question();
+            return answer;
+        }
+
         context.cache.insert_all(&rrs);
         prioritising_merge(&mut combined_rrs, rrs);
         Ok(ResolvedRecord::NonAuthoritative {
